@@ -18,13 +18,24 @@ Qed.
 Lemma ret_nil_app r : ret r ++ [] = ret r.
 Proof. apply app_nil_r. Qed.
 
+Lemma write_spec k d s s' r :
+  (match k with Sock _ => sock_write d s | Serial => ser_write d s end) = (s', r) ->
+  is_open s' = is_open s /\ buf s' = buf s /\ pend s' = pend s /\ orc s' = orc s /\ clk s' = clk s /\
+  (is_open s = false -> s' = s /\ r = RInvalid) /\
+  (is_open s = true -> r = RNone /\
+     dlog s' = match k with Sock _ => [DSend d; DSetTmo None] | Serial => [DSend d] end ++ dlog s).
+Proof.
+  destruct k; unfold sock_write, ser_write; destruct (is_open s) eqn:E; intros [= <- <-]; sim;
+    repeat split; auto; discriminate.
+Qed.
+
 Lemma step_raw_spec k s o s' r d :
   step_raw k s o = (s', r, d) -> kwf k s ->
   kwf k s' /\ smoved s s' (ret r ++ d) /\ (forall c, k = Sock c -> r <> RFuel) /\ r <> RRuntime.
 Proof.
   intros H W. destruct k as [c|]; cbn [kwf] in *.
   - destruct W as [W P].
-    destruct o as [| |n t|tm t|n t|]; cbn [step_raw] in H; unfold nodrop in H.
+    destruct o as [| |n t|tm t|n t| |wd]; cbn [step_raw] in H; unfold nodrop in H.
     + apply sock_open_spec in H as (H1 & H2 & H3 & H4 & H5 & H6).
       repeat split; try congruence.
       * apply moved_smoved; congruence.
@@ -53,7 +64,12 @@ Proof.
       * apply moved_smoved; congruence.
       * intros c0 _. destruct H5 as [-> | ->]; discriminate.
       * destruct H5 as [-> | ->]; discriminate.
-  - destruct o as [| |n t|tm t|n t|]; cbn [step_raw] in H; unfold nodrop in H.
+    + destruct (sock_write wd s) as [s1 r1] eqn:E. inversion H; subst.
+      apply (write_spec (Sock c)) in E as (H1 & H2 & H3 & H4 & H5 & H6 & H7).
+      assert (ret r = [] /\ r <> RRuntime /\ r <> RFuel) as (-> & ? & ?).
+      { destruct (is_open s); [destruct H7 as (-> & _) | destruct H6 as (_ & ->)]; auto; repeat split; discriminate. }
+      repeat split; try congruence. apply smoved_refl; congruence.
+  - destruct o as [| |n t|tm t|n t| |wd]; cbn [step_raw] in H; unfold nodrop in H.
     + apply ser_open_spec in H as (H1 & H2 & H3 & H4 & H5).
       repeat split; auto; try discriminate.
       destruct (is_open s); [destruct H4 as (_ & -> & _) | destruct H5 as (-> & _)]; auto; discriminate.
@@ -73,6 +89,11 @@ Proof.
       rewrite app_nil_r. repeat split; auto; discriminate.
     + apply ser_discard_spec in H as (H1 & H2 & H3 & _).
       repeat split; auto; try discriminate. destruct H3 as [-> | ->]; discriminate.
+    + destruct (ser_write wd s) as [s1 r1] eqn:E. inversion H; subst.
+      apply (write_spec Serial) in E as (H1 & H2 & H3 & H4 & H5 & H6 & H7).
+      assert (ret r = [] /\ r <> RRuntime) as (-> & ?).
+      { destruct (is_open s); [destruct H7 as (-> & _) | destruct H6 as (_ & ->)]; auto; split; auto; discriminate. }
+      repeat split; auto; try discriminate. apply smoved_refl; congruence.
 Qed.
 
 Lemma step_unfold k s o s' x :
@@ -197,7 +218,7 @@ Lemma closed_step k s o s' x :
   end.
 Proof.
   intros C H. apply step_unfold in H as [H Hc]. rewrite Hc.
-  destruct k as [c|], o as [| |n t|tm t|n t|]; cbn [step_raw] in H; unfold nodrop in H.
+  destruct k as [c|], o as [| |n t|tm t|n t| |wd]; cbn [step_raw] in H; unfold nodrop in H.
   - unfold sock_open in H. rewrite C in H. inversion H; subst; sim. auto.
   - unfold do_close in H. rewrite C in H. cbn in H. inversion H; subst. rewrite new_calls_same; auto.
   - unfold sock_read in H. rewrite C in H. cbn in H. inversion H; subst. rewrite new_calls_same; auto.
@@ -207,6 +228,7 @@ Proof.
     + rewrite C in H. cbn in H. inversion H; subst. rewrite new_calls_same; auto. repeat split; auto.
   - unfold sock_rut, sock_read in H. rewrite C in H. cbn in H. inversion H; subst. rewrite new_calls_same; auto.
   - unfold sock_discard in H. rewrite C in H. inversion H; subst. rewrite new_calls_same; auto.
+  - unfold sock_write in H. rewrite C in H. cbn in H. inversion H; subst. rewrite new_calls_same; auto.
   - unfold ser_open in H. rewrite C in H. inversion H; subst; sim. auto.
   - unfold do_close in H. rewrite C in H. cbn in H. inversion H; subst. rewrite new_calls_same; auto.
   - unfold ser_read_op in H. rewrite C in H. cbn in H. inversion H; subst. rewrite new_calls_same; auto.
@@ -214,6 +236,7 @@ Proof.
     repeat split; auto.
   - unfold ser_rut, ser_read_op in H. rewrite C in H. cbn in H. inversion H; subst. rewrite new_calls_same; auto.
   - unfold ser_discard in H. rewrite C in H. inversion H; subst. rewrite new_calls_same; auto.
+  - unfold ser_write in H. rewrite C in H. cbn in H. inversion H; subst. rewrite new_calls_same; auto.
 Qed.
 
 Lemma open_refused k s :
